@@ -18,6 +18,7 @@
 #define NOPS 3
 #define OPS {0, 1, 0, 0, 0}
 #define ARGS {0, 0, 1, 0, 0}
+#define EXPECT_RECYCLE 1
 #endif
 #ifndef CACHE
 #define CACHE 1
@@ -94,7 +95,9 @@ void harness(void) {
 		}
 		check_state(ctx);
 	}
+#ifdef EXPECT_RECYCLE
 	if (recycled) WITNESS_POINT("a constructor was served from the recycle bin");
+#endif
 #ifdef EXPECT_OVERFLOW
 	if (really_freed) WITNESS_POINT("recycle bin full: object released to the allocator");
 #endif
